@@ -83,6 +83,153 @@ type c17Cls struct {
 	dashes []c17Test
 	sites  map[*ssa.Call]*c17Site
 	notes  []string
+
+	// split: the entries are not classified by fn itself but by a same-package helper that fn
+	// hands its list to and that reports (lists…, match-all flag) — `pos, inv, all := split(rules)`
+	split *c17Split
+	// bind: parameters of the same-package list helpers whose results fn returns (`return
+	// choose(pos, inv, all)`), bound to the caller's values; conflict marks a parameter bound to
+	// different values at different call sites (not followed)
+	bind     map[*ssa.Parameter]ssa.Value
+	conflict map[*ssa.Parameter]bool
+}
+
+// c17Split is the call of the helper that classifies the entries on behalf of a normaliser.
+type c17Split struct {
+	call *ssa.Call
+	k    *c17Cls // the helper, classified over its own list parameter
+	flag int     // index of the helper's single bool result (the match-all flag)
+}
+
+// loop returns the classifier that holds the entry tests and the appends: k itself, or the
+// split helper.
+func (k *c17Cls) loop() *c17Cls {
+	if k.split != nil {
+		return k.split.k
+	}
+	return k
+}
+
+// site returns the entry append a call is (nil if none), looking into the split helper too.
+func (k *c17Cls) site(call *ssa.Call) *c17Site {
+	if s := k.sites[call]; s != nil {
+		return s
+	}
+	if k.split != nil {
+		return k.split.k.sites[call]
+	}
+	return nil
+}
+
+func (k *c17Cls) allSites() []*c17Site {
+	var out []*c17Site
+	for _, s := range k.sites {
+		out = append(out, s)
+	}
+	if k.split != nil {
+		for _, s := range k.split.k.sites {
+			out = append(out, s)
+		}
+	}
+	return out
+}
+
+// isEntry: v is an entry of the list being normalised, read in fn or in the split helper.
+func (k *c17Cls) isEntry(v ssa.Value) bool {
+	return k.isElem(v) || (k.split != nil && k.split.k.isElem(v))
+}
+
+// listHelper returns the same-package function whose result call hands on, when the analysis
+// follows it: a plain static call of a loop-free function with a body and a single []string
+// result (the selection `choose(pos, inv, all)` moved out of the normaliser).
+func (k *c17Cls) listHelper(v ssa.Value) (*ssa.Call, *ssa.Function) {
+	call, ok := v.(*ssa.Call)
+	if !ok || call.Call.IsInvoke() {
+		return nil, nil
+	}
+	h := call.Call.StaticCallee()
+	if h == nil || h.Blocks == nil || h == k.fn || eng.Outermost(h).Pkg != eng.Outermost(k.fn).Pkg || h.Signature.Results().Len() != 1 ||
+		!c17IsStringSlice(h.Signature.Results().At(0).Type()) || len(call.Call.Args) != len(h.Params) {
+		return nil, nil
+	}
+	if k.split != nil && h == k.split.k.fn {
+		return nil, nil
+	}
+	if !c17IsSelection(h, 2) {
+		return nil, nil // a helper that builds or cuts a list itself is not a selection
+	}
+	return call, h
+}
+
+// c17IsSelection reports whether h only chooses among its arguments and list literals:
+// loop-free, no calls but len/cap (and nested selections), no slicing, indexing, appending or
+// memory traffic other than building a literal. What such a helper returns is one of the
+// values it was given (or a constant list) — nothing is dropped, cut or rewritten inside.
+func c17IsSelection(h *ssa.Function, depth int) bool {
+	if h == nil || h.Blocks == nil || eng.HasLoop(h) || len(h.AnonFuncs) > 0 {
+		return false
+	}
+	literal := func(v ssa.Value) bool {
+		al, ok := v.(*ssa.Alloc)
+		if !ok {
+			return false
+		}
+		_, isArr := al.Type().Underlying().(*types.Pointer).Elem().Underlying().(*types.Array)
+		return isArr
+	}
+	ok := true
+	eng.Instrs(h, func(ins ssa.Instruction) {
+		switch x := ins.(type) {
+		case *ssa.If, *ssa.Jump, *ssa.Return, *ssa.Phi, *ssa.BinOp, *ssa.DebugRef, *ssa.ChangeType:
+		case *ssa.UnOp:
+			if x.Op != token.NOT {
+				ok = false
+			}
+		case *ssa.Alloc:
+			if !literal(x) {
+				ok = false
+			}
+		case *ssa.IndexAddr:
+			if !literal(x.X) {
+				ok = false
+			}
+		case *ssa.Slice:
+			if !literal(x.X) || x.Low != nil || x.High != nil {
+				ok = false
+			}
+		case *ssa.Store:
+			ia, isIA := x.Addr.(*ssa.IndexAddr)
+			if !isIA || !literal(ia.X) {
+				ok = false
+			}
+		case *ssa.Call:
+			if c17IsBuiltin(x, "len") || c17IsBuiltin(x, "cap") {
+				return
+			}
+			g := x.Call.StaticCallee()
+			if g == nil || x.Call.IsInvoke() || g == h || depth <= 0 || g.Pkg != h.Pkg || g.Signature.Results().Len() != 1 ||
+				!c17IsStringSlice(g.Signature.Results().At(0).Type()) || !c17IsSelection(g, depth-1) {
+				ok = false
+			}
+		default:
+			ok = false
+		}
+	})
+	return ok
+}
+
+// bindCall records the binding of h's parameters at call.
+func (k *c17Cls) bindCall(call *ssa.Call, h *ssa.Function) {
+	if k.bind == nil {
+		k.bind, k.conflict = map[*ssa.Parameter]ssa.Value{}, map[*ssa.Parameter]bool{}
+	}
+	for i, p := range h.Params {
+		if old, ok := k.bind[p]; ok && old != call.Call.Args[i] {
+			k.conflict[p] = true
+			continue
+		}
+		k.bind[p] = call.Call.Args[i]
+	}
 }
 
 func (k *c17Cls) isElem(v ssa.Value) bool {
@@ -139,7 +286,7 @@ func c17DashTests(fn *ssa.Function, subj func(ssa.Value) bool, depth int) []c17T
 				return
 			}
 			h := x.Call.StaticCallee()
-			if h == nil || h == fn || h.Blocks == nil || depth <= 0 || h.Pkg != fn.Pkg || h.Signature.Results().Len() != 1 {
+			if h == nil || h == fn || h.Blocks == nil || depth <= 0 || h.Pkg != fn.Pkg || h.Signature.Results().Len() < 1 {
 				return
 			}
 			for pi, p := range h.Params {
@@ -151,11 +298,27 @@ func c17DashTests(fn *ssa.Function, subj func(ssa.Value) bool, depth int) []c17T
 					continue
 				}
 				// the helper's result has truth value w only where the test holds: isInverted(s)
-				// (w = true) as well as its De Morgan twin isPositive(s) (w = false)
-				if w, ok := c17ResultImplies(h, inner[0].val, inner[0].when); ok {
-					t := inner[0]
-					t.val, t.when = x, w
-					out = append(out, t)
+				// (w = true) as well as its De Morgan twin isPositive(s) (w = false); a helper with
+				// several results reports the polarity in its single bool result
+				// (`value, inverted := splitRule(s)`)
+				if h.Signature.Results().Len() == 1 {
+					if w, ok := c17ResultImplies(h, 0, inner[0].val, inner[0].when); ok {
+						t := inner[0]
+						t.val, t.when = x, w
+						out = append(out, t)
+					}
+					continue
+				}
+				bi := c17BoolResult(h)
+				if bi < 0 {
+					continue
+				}
+				if w, ok := c17ResultImplies(h, bi, inner[0].val, inner[0].when); ok {
+					for _, ex := range eng.ExtractOf(x, bi) {
+						t := inner[0]
+						t.val, t.when = ex, w
+						out = append(out, t)
+					}
 				}
 			}
 		}
@@ -166,16 +329,32 @@ func c17DashTests(fn *ssa.Function, subj func(ssa.Value) bool, depth int) []c17T
 // c17ResultImplies finds the truth value w of the single boolean result of helper h such that
 // "h(…) == w" implies "v == want" (v a boolean value of h): on every return the result either
 // is a constant different from w or implies v == want (through !, && / || phis).
-func c17ResultImplies(h *ssa.Function, v ssa.Value, want bool) (bool, bool) {
+func c17ResultImplies(h *ssa.Function, idx int, v ssa.Value, want bool) (bool, bool) {
 	rets := c17Returns(h)
 	for _, w := range []bool{true, false} {
 		ok, some := len(rets) > 0, false
 		for _, r := range rets {
-			if len(r.Results) != 1 {
+			if idx >= len(r.Results) {
 				ok = false
 				break
 			}
-			rv := r.Results[0]
+			rv := eng.ReturnResults(r)[idx]
+			// a constant result of the wanted truth value is fine where the test is known to hold
+			// on the way to the return (`if len(s) > 0 && s[0] == '-' { return s[1:], true }`)
+			if eng.IsBoolConst(rv, w) {
+				held := false
+				for _, g := range eng.GuardsOf(r) {
+					if t, known := eng.GuardImplies(g, v); known && t == want {
+						held = true
+					}
+				}
+				if held {
+					some = true
+					continue
+				}
+				ok = false
+				continue
+			}
 			if eng.IsBoolConst(rv, !w) {
 				continue
 			}
@@ -253,7 +432,9 @@ func c17Classify(w *eng.World, fn *ssa.Function, p *ssa.Parameter, depth int) *c
 	k := &c17Cls{w: w, fn: fn, param: p, sites: map[*ssa.Call]*c17Site{}}
 	k.stars = c17StarTests(fn, k.isElem, depth)
 	k.dashes = c17DashTests(fn, k.isElem, depth)
-	sl := &eng.Slicer{W: w, Depth: 0}
+	// WithArgs: an entry may pass through a per-entry helper before it is appended
+	// (`value, inverted := splitRule(r)`): the helper's result derives from its argument
+	sl := (&eng.Slicer{W: w, Depth: 0}).WithArgs()
 	for _, ci := range eng.Calls(fn) {
 		call, ok := ci.(*ssa.Call)
 		if !ok || !c17IsBuiltin(call, "append") || len(call.Call.Args) != 2 {
@@ -355,7 +536,39 @@ func (k *c17Cls) origin(v ssa.Value) c17Origin {
 		case *ssa.Parameter:
 			if x == k.param {
 				o.input = true
+			} else if b, ok := k.bind[x]; ok && !k.conflict[x] {
+				walk(b)
 			} else {
+				o.unknown = append(o.unknown, v)
+			}
+		case *ssa.Extract:
+			// a list handed out by the split helper: what the helper's returns put there
+			if k.split == nil || x.Tuple != ssa.Value(k.split.call) {
+				o.unknown = append(o.unknown, v)
+				return
+			}
+			n := 0
+			for _, r := range c17Returns(k.split.k.fn) {
+				res := eng.ReturnResults(r)
+				if x.Index >= len(res) {
+					continue
+				}
+				n++
+				sub := k.split.k.origin(res[x.Index])
+				for c := range sub.sites {
+					o.sites[c] = true
+				}
+				o.elems = append(o.elems, sub.elems...)
+				o.unknown = append(o.unknown, sub.unknown...)
+				if sub.input {
+					if k.split.call.Call.Args[eng.ParamIndex(k.split.k.param)] == ssa.Value(k.param) {
+						o.input = true
+					} else {
+						o.unknown = append(o.unknown, v)
+					}
+				}
+			}
+			if n == 0 {
 				o.unknown = append(o.unknown, v)
 			}
 		case *ssa.MakeSlice:
@@ -381,6 +594,15 @@ func (k *c17Cls) origin(v ssa.Value) c17Origin {
 				walk(x.Call.Args[1])
 				return
 			}
+			// the result of a same-package selection helper: what its returns yield, with its
+			// parameters bound to the arguments
+			if call, h := k.listHelper(x); h != nil {
+				k.bindCall(call, h)
+				for _, r := range c17Returns(h) {
+					walk(eng.ReturnResults(r)[0])
+				}
+				return
+			}
 			o.unknown = append(o.unknown, v)
 		case *ssa.UnOp:
 			// named result / captured local kept in memory: what is stored into the cell
@@ -403,7 +625,7 @@ func (k *c17Cls) origin(v ssa.Value) c17Origin {
 
 func (k *c17Cls) kinds(o c17Origin) (pos, inv bool) {
 	for s := range o.sites {
-		if k.sites[s].inverted {
+		if k.site(s).inverted {
 			inv = true
 		} else {
 			pos = true
@@ -449,13 +671,13 @@ func (k *c17Cls) isPositiveList(v ssa.Value) bool {
 	}
 	n := 0
 	for s := range o.sites {
-		if k.sites[s].inverted {
+		if k.site(s).inverted {
 			return false
 		}
 		n++
 	}
 	all := 0
-	for _, s := range k.sites {
+	for _, s := range k.allSites() {
 		if !s.inverted {
 			all++
 		}
@@ -530,6 +752,24 @@ func (k *c17Cls) leaves(v ssa.Value) []eng.GuardedLeaf {
 	var out []eng.GuardedLeaf
 	var walk func(v ssa.Value, gs []eng.Guard, depth int)
 	walk = func(v ssa.Value, gs []eng.Guard, depth int) {
+		if depth <= 6 {
+			// a parameter of a followed selection helper stands for the argument; the result of
+			// such a helper for what its returns yield, under the guards of the returning block
+			if p, isP := v.(*ssa.Parameter); isP && p != k.param {
+				if b, bound := k.bind[p]; bound && !k.conflict[p] {
+					walk(b, gs, depth+1)
+					return
+				}
+			}
+			if call, h := k.listHelper(v); h != nil {
+				k.bindCall(call, h)
+				for _, r := range c17Returns(h) {
+					ng := append(append([]eng.Guard{}, gs...), eng.GuardsOf(r)...)
+					walk(eng.ReturnResults(r)[0], ng, depth+1)
+				}
+				return
+			}
+		}
 		phi, ok := v.(*ssa.Phi)
 		cyclic := false
 		if ok {
@@ -640,13 +880,45 @@ func (k *c17Cls) hasConstElem(v ssa.Value) bool {
 	return false
 }
 
+// c17BadReturn reports whether return r yields a list satisfying bad. When r hands on the
+// result of a followed selection helper (`return choose(pos, inv, all)`) the question is asked
+// of the helper's own returns: those reachable when the helper is entered with the truth values
+// the caller knows for its boolean arguments (known), cut edges removed.
+func (k *c17Cls) c17BadReturn(r *ssa.Return, known eng.KnownFn, cut func(*ssa.BasicBlock, int) bool, bad func(ssa.Value) bool, depth int) bool {
+	res := eng.ReturnResults(r)
+	if len(res) != 1 {
+		return true
+	}
+	call, h := k.listHelper(res[0])
+	if h == nil || depth <= 0 {
+		return bad(res[0])
+	}
+	k.bindCall(call, h)
+	assume := eng.BoolFacts{}
+	for i, p := range h.Params {
+		if b, isB := p.Type().Underlying().(*types.Basic); isB && b.Kind() == types.Bool {
+			if val, ok := known(call.Call.Args[i]); ok {
+				assume[p] = val
+			}
+		}
+	}
+	return eng.FactReachFromEntry(h, eng.FactQuery{Assume: assume, CutEdge: cut, Target: func(i ssa.Instruction, known2 eng.KnownFn) bool {
+		r2, isR := i.(*ssa.Return)
+		return isR && k.c17BadReturn(r2, known2, cut, bad, depth-1)
+	}}) != nil
+}
+
 // c17CheckNormaliser decides R2 and the normaliser half of R3 for classifier k of a
-// function []string -> []string; star is the matcher's match-all constant.
+// function []string -> []string; star is the matcher's match-all constant. The entries may be
+// classified in k.fn itself or in the split helper it hands the list to (k.split): then the
+// helper's match-all flag stands for "an entry is the constant" in k.fn, provided the helper
+// sets the flag on the entry=="*" edges and nowhere else.
 func c17CheckNormaliser(k *c17Cls, star string) []c17Result {
 	var out []c17Result
 	fn := k.fn
+	lp := k.loop()
 	rets := c17Returns(fn)
-	starEdges := k.edgesOf(k.stars)
+	starEdges := lp.edgesOf(lp.stars)
 	cutStar := func(from *ssa.BasicBlock, succ int) bool {
 		for _, e := range starEdges {
 			if e.from == from && e.succ == succ {
@@ -655,6 +927,17 @@ func c17CheckNormaliser(k *c17Cls, star string) []c17Result {
 		}
 		return false
 	}
+	// the flag values of the split call in fn
+	flagFacts := func(val bool) eng.BoolFacts {
+		f := eng.BoolFacts{}
+		if k.split != nil {
+			for _, ex := range eng.ExtractOf(k.split.call, k.split.flag) {
+				f[ex] = val
+			}
+		}
+		return f
+	}
+	isSplitCall := func(i ssa.Instruction) bool { return k.split != nil && i == ssa.Instruction(k.split.call) }
 
 	// R2a: elements are input entries, verbatim, or the match-all constant
 	{
@@ -666,13 +949,13 @@ func c17CheckNormaliser(k *c17Cls, star string) []c17Result {
 				res.ok = false
 				continue
 			}
-			o := k.origin(r.Results[0])
+			o := k.origin(eng.ReturnResults(r)[0])
 			for _, u := range o.unknown {
 				res.undecided = true
 				bad = append(bad, "unclassified list source "+u.String())
 			}
 			for _, e := range o.elems {
-				if k.isElem(e) {
+				if k.isEntry(e) {
 					continue
 				}
 				if s, ok := eng.StringConst(e); ok && s == star {
@@ -694,9 +977,9 @@ func c17CheckNormaliser(k *c17Cls, star string) []c17Result {
 		res := c17Result{construct: "every entry is appended to a list (or is the match-all entry)", pos: fn.Pos(), ok: true,
 			detail: "a dropped entry changes emptiness or content: apiGroups [\"\"] normalised to [] matches nothing, resourceNames [\"x\"] normalised to [] matches everything"}
 		n := 0
-		eng.Instrs(fn, func(ins ssa.Instruction) {
+		eng.Instrs(lp.fn, func(ins ssa.Instruction) {
 			v, isV := ins.(ssa.Value)
-			if !isV || !k.isElem(v) {
+			if !isV || !lp.isElem(v) {
 				return
 			}
 			n++
@@ -706,14 +989,14 @@ func c17CheckNormaliser(k *c17Cls, star string) []c17Result {
 						return true
 					}
 					// another read of an entry with a different index is the next iteration
-					if w, ok := i.(ssa.Value); ok && k.isElem(w) && !c17SameSubject(v, w) {
+					if w, ok := i.(ssa.Value); ok && lp.isElem(w) && !c17SameSubject(v, w) {
 						return true
 					}
 					return false
 				},
 				Avoid: func(i ssa.Instruction) bool {
 					call, ok := i.(*ssa.Call)
-					if !ok || k.sites[call] == nil {
+					if !ok || lp.sites[call] == nil {
 						return false
 					}
 					for _, e := range c17LiteralElems(call.Call.Args[1]) {
@@ -735,26 +1018,69 @@ func c17CheckNormaliser(k *c17Cls, star string) []c17Result {
 		out = append(out, res)
 	}
 
+	constList := func(v ssa.Value) bool { return k.hasConstElem(v) }
+	notStarOnly := func(v ssa.Value) bool { return !k.isStarSingleton(v, star) }
+
 	// R2c: the constant list is produced only when some entry is the match-all constant
 	{
-		x := eng.FactReachFromEntry(fn, eng.FactQuery{CutEdge: cutStar, Target: func(i ssa.Instruction, _ eng.KnownFn) bool {
-			r, ok := i.(*ssa.Return)
-			return ok && len(r.Results) == 1 && k.hasConstElem(r.Results[0])
-		}})
+		ok := len(starEdges) > 0
+		target := func(i ssa.Instruction, known eng.KnownFn) bool {
+			r, isR := i.(*ssa.Return)
+			return isR && k.c17BadReturn(r, known, cutStar, constList, eng.LiftDepth)
+		}
+		if k.split == nil {
+			ok = ok && eng.FactReachFromEntry(fn, eng.FactQuery{CutEdge: cutStar, Target: target}) == nil
+		} else {
+			// the helper raises its flag only on an entry=="*" edge …
+			bi := k.split.flag
+			ok = ok && eng.FactReachFromEntry(lp.fn, eng.FactQuery{CutEdge: cutStar, Target: func(i ssa.Instruction, known eng.KnownFn) bool {
+				r, isR := i.(*ssa.Return)
+				if !isR {
+					return false
+				}
+				v, known2 := known(eng.ReturnResults(r)[bi])
+				return !known2 || v
+			}}) == nil
+			// … and without the flag no constant list is returned: neither before the helper
+			// ran nor after it reported false
+			ok = ok && eng.FactReachFromEntry(fn, eng.FactQuery{Avoid: isSplitCall, Target: target}) == nil
+			ok = ok && eng.FactReachAfter(k.split.call, eng.FactQuery{Assume: flagFacts(false), Target: target}) == nil
+		}
 		out = append(out, c17Result{construct: "the match-all list is returned only if an entry is the match-all constant", pos: fn.Pos(),
-			ok:     x == nil && len(starEdges) > 0,
+			ok:     ok,
 			detail: "with the entry==\"*\" edges removed no return of a constant list may be reachable: verbs [] (matches nothing) must not become [\"*\"]"})
 	}
 
 	// R3: "*" wins — after an entry equal to the constant every return yields exactly [const]
 	{
 		ok := len(starEdges) > 0
-		for _, e := range starEdges {
-			x := eng.FactReachFromEdge(e.from, e.succ, eng.FactQuery{Target: func(i ssa.Instruction, _ eng.KnownFn) bool {
-				r, isR := i.(*ssa.Return)
-				return isR && !(len(r.Results) == 1 && k.isStarSingleton(r.Results[0], star))
-			}})
-			if x != nil {
+		target := func(i ssa.Instruction, known eng.KnownFn) bool {
+			r, isR := i.(*ssa.Return)
+			return isR && k.c17BadReturn(r, known, nil, notStarOnly, eng.LiftDepth)
+		}
+		if k.split == nil {
+			for _, e := range starEdges {
+				if eng.FactReachFromEdge(e.from, e.succ, eng.FactQuery{Target: target}) != nil {
+					ok = false
+				}
+			}
+		} else {
+			// after an entry=="*" edge the helper always reports the flag, and with the flag the
+			// normaliser returns exactly the constant list
+			bi := k.split.flag
+			for _, e := range starEdges {
+				if eng.FactReachFromEdge(e.from, e.succ, eng.FactQuery{Target: func(i ssa.Instruction, known eng.KnownFn) bool {
+					r, isR := i.(*ssa.Return)
+					if !isR {
+						return false
+					}
+					v, known2 := known(eng.ReturnResults(r)[bi])
+					return !known2 || !v
+				}}) != nil {
+					ok = false
+				}
+			}
+			if len(flagFacts(true)) == 0 || eng.FactReachAfter(k.split.call, eng.FactQuery{Assume: flagFacts(true), Target: target}) != nil {
 				ok = false
 			}
 		}
@@ -762,7 +1088,9 @@ func c17CheckNormaliser(k *c17Cls, star string) []c17Result {
 			detail: "the matcher answers true for any list containing \"*\"; the normalised list must keep that (and only that) entry"})
 	}
 
-	out = append(out, c17LenGuard(k))
+	lg := c17LenGuard(lp)
+	lg.pos = fn.Pos()
+	out = append(out, lg)
 
 	// R3: precedence of the returned list
 	{
@@ -774,7 +1102,7 @@ func c17CheckNormaliser(k *c17Cls, star string) []c17Result {
 			if len(r.Results) != 1 {
 				continue
 			}
-			for _, lf := range k.leaves(r.Results[0]) {
+			for _, lf := range k.leaves(eng.ReturnResults(r)[0]) {
 				o := k.origin(lf.V)
 				if len(o.unknown) > 0 {
 					res.undecided = true
@@ -834,6 +1162,54 @@ func c17CheckNormaliser(k *c17Cls, star string) []c17Result {
 			res.detail = strings.Join(dedupStrings(why), "; ")
 		}
 		out = append(out, res)
+	}
+	return out
+}
+
+// c17Normaliser classifies fn as a normaliser of its []string parameter p: over its own body
+// when it reads the entries itself, otherwise over the same-package helper it hands the list to
+// (a function of a []string returning lists and exactly one bool, found by what it compares).
+func c17Normaliser(w *eng.World, fn *ssa.Function, p *ssa.Parameter, depth int) *c17Cls {
+	k := c17Classify(w, fn, p, depth)
+	if len(k.stars) > 0 || len(k.dashes) > 0 || len(k.sites) > 0 {
+		return k
+	}
+	var found *c17Split
+	n := 0
+	for _, ci := range eng.Calls(fn) {
+		call, ok := ci.(*ssa.Call)
+		if !ok || call.Call.IsInvoke() {
+			continue
+		}
+		h := call.Call.StaticCallee()
+		if h == nil || h.Blocks == nil || h == fn || eng.Outermost(h).Pkg != eng.Outermost(fn).Pkg || len(call.Call.Args) != len(h.Params) {
+			continue
+		}
+		for i, a := range call.Call.Args {
+			if a != ssa.Value(p) || !c17IsStringSlice(h.Params[i].Type()) {
+				continue
+			}
+			kh := c17Classify(w, h, h.Params[i], depth)
+			if len(kh.stars) == 0 || len(kh.dashes) == 0 {
+				continue
+			}
+			n++
+			if bi := c17BoolResult(h); bi >= 0 {
+				found = &c17Split{call: call, k: kh, flag: bi}
+			}
+		}
+	}
+	if n == 1 && found != nil {
+		k.split = found
+	}
+	return k
+}
+
+// funcsCalling returns the static call sites of h in funcs.
+func funcsCalling(funcs []*ssa.Function, h *ssa.Function) []ssa.CallInstruction {
+	var out []ssa.CallInstruction
+	for _, g := range funcs {
+		out = append(out, eng.CallsToFn(g, h)...)
 	}
 	return out
 }
@@ -1020,36 +1396,75 @@ func c17CheckMatcher(k *c17Cls, funcs []*ssa.Function) []c17Result {
 			// the classifier hands the inverted entries out unconditionally: every consumer must
 			// consult them under `no positive entry`
 			for _, u := range uses {
+				// bind: parameters of the same-package helpers the lists are handed on to
+				// (`decide(positive, inverted, …)`), bound to the consumer's values
+				bind := map[*ssa.Parameter]ssa.Value{}
 				isPosOfCall := func(v ssa.Value) bool {
+					for i := 0; i < 8; i++ {
+						p, isP := v.(*ssa.Parameter)
+						if !isP {
+							break
+						}
+						b, bound := bind[p]
+						if !bound {
+							break
+						}
+						v = b
+					}
 					call, idx := eng.CallResultOf(v)
 					return call == u.call && posOnly[idx]
 				}
-				for idx := range tainted {
-					for _, ex := range eng.ExtractOf(u.call, idx) {
-						for _, ref := range *ex.Referrers() {
-							switch x := ref.(type) {
-							case *ssa.DebugRef:
-								continue
-							case *ssa.Call:
-								if c17IsBuiltin(x, "len") || c17IsBuiltin(x, "cap") {
-									continue
-								}
-							case *ssa.Phi, *ssa.Return, *ssa.Store:
-								res.undecided = true
-								why = append(why, "the inverted entries flow on from "+u.fn.Name()+" (not followed)")
+				// consult: every use of val (the inverted entries) lies behind `no positive entry`
+				var consult func(val ssa.Value, depth int)
+				consult = func(val ssa.Value, depth int) {
+					if val.Referrers() == nil {
+						return
+					}
+					for _, ref := range *val.Referrers() {
+						switch x := ref.(type) {
+						case *ssa.DebugRef:
+							continue
+						case *ssa.Call:
+							if c17IsBuiltin(x, "len") || c17IsBuiltin(x, "cap") {
 								continue
 							}
-							state := 0
-							for _, g := range eng.GuardsOf(ref) {
-								if s := k.positiveLen(g.Rel(), isPosOfCall); s != 0 {
-									state = s
-								}
-							}
-							if state != -1 {
-								res.ok = false
-								why = append(why, u.fn.Name()+" consults the inverted entries without the test that no positive entry exists")
+						case *ssa.Phi, *ssa.Return, *ssa.Store:
+							res.undecided = true
+							why = append(why, "the inverted entries flow on from "+u.fn.Name()+" (not followed)")
+							continue
+						}
+						state := 0
+						for _, g := range eng.GuardsOf(ref) {
+							if s := k.positiveLen(g.Rel(), isPosOfCall); s != 0 {
+								state = s
 							}
 						}
+						if state == -1 {
+							continue
+						}
+						// handed on to a same-package helper without the test: the helper must make it
+						if call, isCall := ref.(*ssa.Call); isCall && depth > 0 && !call.Call.IsInvoke() {
+							if h := call.Call.StaticCallee(); h != nil && h.Blocks != nil && h != k.fn && h.Pkg == u.fn.Pkg && len(call.Call.Args) == len(h.Params) && len(funcsCalling(funcs, h)) == 1 {
+								var ps []*ssa.Parameter
+								for i, a := range call.Call.Args {
+									bind[h.Params[i]] = a
+									if a == val {
+										ps = append(ps, h.Params[i])
+									}
+								}
+								for _, p := range ps {
+									consult(p, depth-1)
+								}
+								continue
+							}
+						}
+						res.ok = false
+						why = append(why, u.fn.Name()+" consults the inverted entries without the test that no positive entry exists")
+					}
+				}
+				for idx := range tainted {
+					for _, ex := range eng.ExtractOf(u.call, idx) {
+						consult(ex, eng.LiftDepth)
 					}
 				}
 			}
@@ -1130,29 +1545,114 @@ func c17(c *eng.Ctx) {
 	in := norm.Params[0]
 
 	// ---- R1: fields of the returned value
-	// isSpill: a local copy of the by-value parameter (`*t = in`), possibly with field stores
-	// (the in-place shape `in.f = N(in.f); return in`)
-	isSpill := func(v ssa.Value) bool {
+	// The result is assembled in local struct cells: a literal (`DispatchPolicyRule{…}`: one cell,
+	// every field stored), the spilled by-value parameter updated in place (`in.f = N(in.f);
+	// return in`), or a copy of it (`out := in; out.f = N(in.f); return out`). Every local cell
+	// of the rule type is examined: it may be written as a whole only with the parameter or with
+	// the content of another such cell, and field f of any cell may only ever be stored
+	// in.f or N(in.f) — so whatever cell is returned, its field f holds in.f, N(in.f), or (a cell
+	// never initialised from the parameter) the zero value of a field that was not set.
+	type cell struct {
+		al        *ssa.Alloc
+		wholeIn   bool                // *cell = in
+		wholeFrom []*ssa.Alloc        // *cell = *other
+		other     bool                // written in a way that is not followed
+		stores    map[int][]ssa.Value // field stores
+	}
+	cells := map[*ssa.Alloc]*cell{}
+	isRuleCell := func(v ssa.Value) *ssa.Alloc {
 		al, ok := v.(*ssa.Alloc)
-		if !ok {
-			return false
+		if !ok || al.Parent() != norm {
+			return nil
 		}
-		n := 0
+		if pt, isPtr := al.Type().Underlying().(*types.Pointer); !isPtr || !types.Identical(pt.Elem(), ruleT) {
+			return nil
+		}
+		return al
+	}
+	var cellOf func(al *ssa.Alloc) *cell
+	cellOf = func(al *ssa.Alloc) *cell {
+		if cl := cells[al]; cl != nil {
+			return cl
+		}
+		cl := &cell{al: al, stores: map[int][]ssa.Value{}}
+		cells[al] = cl
 		for _, ref := range *al.Referrers() {
-			if st, ok := ref.(*ssa.Store); ok && st.Addr == ssa.Value(al) {
-				if st.Val != ssa.Value(in) {
-					return false
+			switch u := ref.(type) {
+			case *ssa.Store:
+				if u.Addr != ssa.Value(al) {
+					cl.other = true // the cell's address is stored somewhere
+					continue
 				}
-				n++
+				if u.Val == ssa.Value(in) {
+					cl.wholeIn = true
+				} else if ld, isLd := u.Val.(*ssa.UnOp); isLd && ld.Op == token.MUL && isRuleCell(ld.X) != nil && isRuleCell(ld.X) != al {
+					cl.wholeFrom = append(cl.wholeFrom, isRuleCell(ld.X))
+				} else {
+					cl.other = true
+				}
+			case *ssa.FieldAddr:
+				for _, rr := range *u.Referrers() {
+					switch w := rr.(type) {
+					case *ssa.Store:
+						if w.Addr == ssa.Value(u) {
+							cl.stores[u.Field] = append(cl.stores[u.Field], w.Val)
+						} else {
+							cl.other = true
+						}
+					case *ssa.UnOp, *ssa.DebugRef:
+					default:
+						cl.other = true // address of a field escapes
+					}
+				}
+			case *ssa.UnOp, *ssa.DebugRef:
+			default:
+				cl.other = true
 			}
 		}
-		return n == 1
+		return cl
 	}
-	// verbatim: v reads field `field` of the parameter (or of its local copy, whose field
-	// `field` only ever holds in.field or N(in.field) — checked for every store below)
+	eng.Instrs(norm, func(ins ssa.Instruction) {
+		if al := isRuleCell(valueOf(ins)); al != nil {
+			cellOf(al)
+		}
+	})
+	// fromIn: the cell is initialised from the parameter (directly or through copies) and never
+	// as a whole from anything else: a field that is not stored holds in.f
+	var fromIn func(cl *cell, busy map[*cell]bool) bool
+	fromIn = func(cl *cell, busy map[*cell]bool) bool {
+		if cl.other || busy[cl] || (!cl.wholeIn && len(cl.wholeFrom) == 0) {
+			return false
+		}
+		busy[cl] = true
+		defer delete(busy, cl)
+		for _, src := range cl.wholeFrom {
+			if !fromIn(cellOf(src), busy) {
+				return false
+			}
+		}
+		return true
+	}
+	// verbatim: v reads field `field` of the parameter or of a local rule cell (whose field
+	// `field` only ever holds in.field or N(in.field): every store of every cell is checked below)
 	verbatim := func(v ssa.Value, field string) bool {
 		root, path := eng.AccessPath(v)
-		return (root == ssa.Value(in) || isSpill(root)) && len(path) == 1 && path[0] == field
+		if len(path) != 1 || path[0] != field {
+			return false
+		}
+		if root == ssa.Value(in) {
+			return true
+		}
+		if al := isRuleCell(root); al != nil {
+			return fromIn(cellOf(al), map[*cell]bool{})
+		}
+		// a load of a cell holding the parameter (AccessPath stops at the load of a multi-store cell)
+		if ld, isLd := root.(*ssa.UnOp); isLd && ld.Op == token.MUL {
+			if al := isRuleCell(ld.X); al != nil {
+				return fromIn(cellOf(al), map[*cell]bool{})
+			}
+		}
+		return false
 	}
 	callees := map[*ssa.Function]bool{}
 	normOf := func(v ssa.Value, field string) bool {
@@ -1176,70 +1676,85 @@ func c17(c *eng.Ctx) {
 	for i := range fieldOK {
 		fieldOK[i] = true
 	}
+	// every field store of every rule cell
+	var cellList []*cell
+	for _, cl := range cells {
+		cellList = append(cellList, cl)
+	}
+	sort.Slice(cellList, func(i, j int) bool { return cellList[i].al.Pos() < cellList[j].al.Pos() })
+	for _, cl := range cellList {
+		for i := 0; i < st.NumFields(); i++ {
+			f := st.Field(i)
+			for _, v := range cl.stores[i] {
+				if verbatim(v, f.Name()) || (c17IsStringSlice(f.Type()) && normOf(v, f.Name())) {
+					continue
+				}
+				fieldOK[i] = false
+				fieldWhy[i] = "the field is set from something other than N(in." + f.Name() + ") or in." + f.Name() + " (" + v.String() + ")"
+			}
+		}
+	}
 	rets := c17Returns(norm)
 	for _, r := range rets {
-		rv := r.Results[0]
+		rv := eng.ReturnResults(r)[0]
 		if rv == ssa.Value(in) {
 			continue // the input itself: every field verbatim
 		}
 		ld, isLd := rv.(*ssa.UnOp)
 		var al *ssa.Alloc
 		if isLd && ld.Op == token.MUL {
-			al, _ = ld.X.(*ssa.Alloc)
+			al = isRuleCell(ld.X)
 		}
 		if al == nil {
 			c.Undecided("R1", norm, "returned value", r.Pos(), "the result is neither the parameter nor a local struct whose field stores can be enumerated")
 			continue
 		}
-		wholeIn, wholeOther := false, false
-		stores := map[int][]ssa.Value{}
-		for _, ref := range *al.Referrers() {
-			switch u := ref.(type) {
-			case *ssa.Store:
-				if u.Addr == ssa.Value(al) {
-					if u.Val == ssa.Value(in) {
-						wholeIn = true
-					} else {
-						wholeOther = true
-					}
-				}
-			case *ssa.FieldAddr:
-				for _, rr := range *u.Referrers() {
-					switch w := rr.(type) {
-					case *ssa.Store:
-						if w.Addr == ssa.Value(u) {
-							stores[u.Field] = append(stores[u.Field], w.Val)
-						}
-					case *ssa.UnOp, *ssa.DebugRef:
-					default:
-						wholeOther = true // address of a field escapes
-					}
-				}
-			case *ssa.UnOp, *ssa.DebugRef:
-			default:
-				wholeOther = true
+		// the returned cell and the cells its content may have been copied from
+		web := map[*cell]bool{}
+		var grow func(cl *cell)
+		grow = func(cl *cell) {
+			if web[cl] {
+				return
+			}
+			web[cl] = true
+			for _, src := range cl.wholeFrom {
+				grow(cellOf(src))
 			}
 		}
-		if wholeOther {
+		grow(cellOf(al))
+		dirty := false
+		for cl := range web {
+			if cl.other {
+				dirty = true
+			}
+		}
+		if dirty {
 			c.Undecided("R1", norm, "returned value", r.Pos(), "the returned struct is written through something other than field stores and a copy of the parameter")
 			continue
 		}
-		for i := 0; i < st.NumFields(); i++ {
-			f := st.Field(i)
-			vals := stores[i]
-			if len(vals) == 0 {
-				if !wholeIn {
-					fieldOK[i] = false
-					fieldWhy[i] = "the field is not set in the returned value: it is stored as its zero value"
-				}
-				continue
+		// set: field i of the cell was given a value (stored, or inherited from the parameter /
+		// from every cell copied into it)
+		var set func(cl *cell, i int, busy map[*cell]bool) bool
+		set = func(cl *cell, i int, busy map[*cell]bool) bool {
+			if len(cl.stores[i]) > 0 || fromIn(cl, map[*cell]bool{}) {
+				return true
 			}
-			for _, v := range vals {
-				if verbatim(v, f.Name()) || (c17IsStringSlice(f.Type()) && normOf(v, f.Name())) {
-					continue
+			if busy[cl] || cl.wholeIn || len(cl.wholeFrom) == 0 {
+				return false
+			}
+			busy[cl] = true
+			defer delete(busy, cl)
+			for _, src := range cl.wholeFrom {
+				if !set(cellOf(src), i, busy) {
+					return false
 				}
+			}
+			return true
+		}
+		for i := 0; i < st.NumFields(); i++ {
+			if !set(cellOf(al), i, map[*cell]bool{}) {
 				fieldOK[i] = false
-				fieldWhy[i] = "the field is set from something other than N(in." + f.Name() + ") or in." + f.Name() + " (" + v.String() + ")"
+				fieldWhy[i] = "the field is not set in the returned value: it is stored as its zero value"
 			}
 		}
 	}
@@ -1355,7 +1870,7 @@ func c17(c *eng.Ctx) {
 		star = strings.Trim(o.Val().ExactString(), "\"")
 	}
 
-	nk := c17Classify(c.W, nfn, nfn.Params[0], c.Depth)
+	nk := c17Normaliser(c.W, nfn, nfn.Params[0], c.Depth)
 	var rs2, rs3 []c17Result
 	for _, r := range c17CheckNormaliser(nk, star) {
 		if strings.HasPrefix(r.construct, "every ") || strings.HasPrefix(r.construct, "the match-all list") {
@@ -1369,15 +1884,21 @@ func c17(c *eng.Ctx) {
 
 	for _, mk := range matchers {
 		c17Emit(c, "R3", mk.fn, "matcher: ", c17CheckMatcher(mk, c.W.FuncsOf(pkgV1alpha1)))
-		ps, ms := c17Consts(nk.stars), c17Consts(mk.stars)
+		ps, ms := c17Consts(nk.loop().stars), c17Consts(mk.stars)
 		c.Check("R3", mk.fn, "match-all constant agrees with the normaliser", mk.fn.Pos(),
 			star != "" && len(ps) == 1 && len(ms) == 1 && ps[0] == star && ms[0] == star,
 			fmt.Sprintf("entries are compared with %q by the normaliser and %q by the matcher (MatchAll = %q); a list holding the one but not the other is rewritten to something the matcher reads differently", ps, ms, star))
-		pd, md := c17Consts(nk.dashes), c17Consts(mk.dashes)
+		pd, md := c17Consts(nk.loop().dashes), c17Consts(mk.dashes)
 		c.Check("R3", mk.fn, "inversion byte agrees with the normaliser", mk.fn.Pos(),
 			len(pd) == 1 && len(md) == 1 && pd[0] == md[0],
 			fmt.Sprintf("inverted entries start with %q for the normaliser and %q for the matcher; if they differ the normaliser drops entries the matcher would have consulted (or keeps ones it ignores)", pd, md))
 	}
+}
+
+// valueOf returns ins as a value (nil when it defines none).
+func valueOf(ins ssa.Instruction) ssa.Value {
+	v, _ := ins.(ssa.Value)
+	return v
 }
 
 func implementsIfaceC17(t types.Type, iface *types.Interface) bool {
@@ -1660,6 +2181,217 @@ func badStarLoses(rules []string) []string {
 	return inv
 }
 
+// ---- normaliser spread over helpers: a split helper reporting (lists, flag), a selection helper
+
+func splitGood(rules []string) (pos, inv []string, all bool) {
+	inv = []string{}
+	for i := range rules {
+		r := rules[i]
+		if r == All {
+			all = true
+			break
+		}
+		inverted := len(r) > 0 && r[0] == '-'
+		if inverted {
+			inv = append(inv, r)
+		} else {
+			pos = append(pos, r)
+		}
+	}
+	return pos, inv, all
+}
+
+func goodSplit(rules []string) []string {
+	pos, inv, all := splitGood(rules)
+	switch {
+	case all:
+		return []string{All}
+	case len(pos) > 0:
+		return pos
+	default:
+		return inv
+	}
+}
+
+func choose(pos, inv []string, all bool) []string {
+	if all {
+		return []string{All}
+	}
+	if len(pos) > 0 {
+		return pos
+	}
+	return inv
+}
+
+func goodSplitChoose(rules []string) []string {
+	pos, inv, all := splitGood(rules)
+	return choose(pos, inv, all)
+}
+
+func goodLoopChoose(rules []string) []string {
+	var pos, inv []string
+	all := false
+	for _, r := range rules {
+		if r == All {
+			all = true
+			break
+		}
+		if isInv(r) {
+			inv = append(inv, r)
+		} else {
+			pos = append(pos, r)
+		}
+	}
+	return choose(pos, inv, all)
+}
+
+func pick(pos, inv []string) []string {
+	if len(pos) == 0 {
+		return inv
+	}
+	return pos
+}
+
+func goodLoopPick(rules []string) []string {
+	var pos, inv []string
+	for _, r := range rules {
+		if r == All {
+			return []string{All}
+		}
+		if isInv(r) {
+			inv = append(inv, r)
+		} else {
+			pos = append(pos, r)
+		}
+	}
+	kept := pick(pos, inv)
+	return kept
+}
+
+func badSplitIgnoresFlag(rules []string) []string {
+	pos, inv, _ := splitGood(rules)
+	if len(pos) > 0 {
+		return pos
+	}
+	return inv
+}
+
+func badSplitSwapped(rules []string) []string {
+	pos, inv, all := splitGood(rules)
+	if all {
+		return []string{All}
+	}
+	if len(inv) > 0 {
+		return inv
+	}
+	return pos
+}
+
+func splitFlagOnDash(rules []string) (pos, inv []string, all bool) {
+	for _, r := range rules {
+		if r == All {
+			all = true
+			break
+		}
+		if len(r) > 0 && r[0] == '-' {
+			inv = append(inv, r)
+			if len(r) == 1 {
+				all = true
+			}
+		} else {
+			pos = append(pos, r)
+		}
+	}
+	return
+}
+
+func badSplitFlag(rules []string) []string {
+	pos, inv, all := splitFlagOnDash(rules)
+	return choose(pos, inv, all)
+}
+
+func chooseStarLoses(pos, inv []string, all bool) []string {
+	if len(pos) > 0 {
+		return pos
+	}
+	if all {
+		return []string{All}
+	}
+	return inv
+}
+
+func badSplitChoose(rules []string) []string {
+	pos, inv, all := splitGood(rules)
+	return chooseStarLoses(pos, inv, all)
+}
+
+func chooseStarDefault(pos, inv []string, all bool) []string {
+	if all {
+		return []string{All}
+	}
+	if len(pos) > 0 {
+		return pos
+	}
+	if len(inv) > 0 {
+		return inv
+	}
+	return []string{All}
+}
+
+func badLoopChooseStar(rules []string) []string {
+	var pos, inv []string
+	all := false
+	for _, r := range rules {
+		if r == All {
+			all = true
+			break
+		}
+		if isInv(r) {
+			inv = append(inv, r)
+		} else {
+			pos = append(pos, r)
+		}
+	}
+	return chooseStarDefault(pos, inv, all)
+}
+
+func pickBoth(pos, inv []string) []string { return append(pos, inv...) }
+
+func badLoopPickBoth(rules []string) []string {
+	var pos, inv []string
+	for _, r := range rules {
+		if r == All {
+			return []string{All}
+		}
+		if isInv(r) {
+			inv = append(inv, r)
+		} else {
+			pos = append(pos, r)
+		}
+	}
+	return pickBoth(pos, inv)
+}
+
+func splitStrips(rules []string) (pos, inv []string, all bool) {
+	for _, r := range rules {
+		if r == All {
+			all = true
+			break
+		}
+		if len(r) > 0 && r[0] == '-' {
+			inv = append(inv, r[1:])
+		} else {
+			pos = append(pos, r)
+		}
+	}
+	return
+}
+
+func badSplitStrips(rules []string) []string {
+	pos, inv, all := splitStrips(rules)
+	return choose(pos, inv, all)
+}
+
 // ---- matcher shapes
 
 type m struct {
@@ -1849,18 +2581,26 @@ func c17Fixtures(c *eng.Ctx) {
 	}
 	normWant := map[string]string{
 		"good": "", "goodEarly": "", "goodContinue": "", "goodDeMorgan": "", "goodPosHelper": "",
-		"badDeMorganMixed": "positives shadow inverted",
-		"badStrip":         "every element of|every entry is",
-		"badBoth":          "positives shadow inverted",
-		"badDrop":          "every entry is",
-		"badStar":          "the match-all list",
-		"badNoLen":         "len>0 tested before",
-		"badLost":          "positives shadow inverted",
-		"badStarLoses":     "an entry equal",
+		"goodSplit": "", "goodSplitChoose": "", "goodLoopChoose": "", "goodLoopPick": "",
+		"badSplitIgnoresFlag": "an entry equal",
+		"badSplitSwapped":     "positives shadow inverted",
+		"badSplitFlag":        "the match-all list",
+		"badSplitChoose":      "an entry equal",
+		"badLoopChooseStar":   "the match-all list",
+		"badLoopPickBoth":     "every element of|positives shadow inverted",
+		"badSplitStrips":      "every element of|every entry is",
+		"badDeMorganMixed":    "positives shadow inverted",
+		"badStrip":            "every element of|every entry is",
+		"badBoth":             "positives shadow inverted",
+		"badDrop":             "every entry is",
+		"badStar":             "the match-all list",
+		"badNoLen":            "len>0 tested before",
+		"badLost":             "positives shadow inverted",
+		"badStarLoses":        "an entry equal",
 	}
 	for name, want := range normWant {
 		fn := p.Func(name)
-		k := c17Classify(nil, fn, fn.Params[0], 2)
+		k := c17Normaliser(nil, fn, fn.Params[0], 2)
 		c.Fixture("C17.normaliser/"+name, want, summary(c17CheckNormaliser(k, "*")))
 	}
 	matchWant := map[string]string{
